@@ -5,7 +5,7 @@
    hold for every such C, ceq, rnd.  [reloaded m] is the mesh a reader builds from what a writer stored:
    geometry = the rounded coordinates in vertices() order, vertices() = all of them in order,
    triangles = the mesh-local index triples of m, in the same order and with the same winding. *)
-From OM Require Import Base.Lists Geom.MeshCodec Geom.MeshCodecProofs.
+From OM Require Import Base.Lists Geom.MeshCodec Geom.MeshCodecFast Geom.MeshCodecProofs Geom.MeshCodecBytes Geom.MeshFillProofs.
 From Coq Require Import NArith.
 
 Section C15.
@@ -34,6 +34,15 @@ Theorem c15_mesh_roundtrip_bnd : forall m : mesh,
   exists s, save_bnd C rnd c0 m = Ok s /\ load_bnd C ceq s = Ok (reloaded C rnd c0 m).
 Proof. exact (roundtrip_bnd C ceq rnd c0). Qed.
 
+(* ---- save then load, .mesh (byte level: little-endian 32-bit counts, a float32 is one opaque 4-byte item whose
+   value is [rnd x]; the reader sizes its arrays with the 32-bit products 3*npts and 3*ntrgs, hence the bounds).
+   No idempotence of [rnd] is needed: the file holds [rnd x] and the reader widens it back exactly. *)
+Theorem c15_mesh_roundtrip_mesh : forall m : mesh,
+  wf_mesh C m -> fits32 (3 * nv m) = true -> fits32 (3 * nt m) = true ->
+  pdistinct C ceq (map (vrnd C rnd) (coords C c0 m)) -> locally_consistent C m ->
+  exists s, save_mesh C rnd c0 m = Ok s /\ load_mesh C ceq s = Ok (reloaded C rnd c0 m).
+Proof. exact (roundtrip_mesh C ceq rnd c0). Qed.
+
 (* ---- what [reloaded] means in the words of the property *)
 Theorem c15_reloaded_same_counts : forall m : mesh,
   nv (reloaded C rnd c0 m) = nv m /\ nt (reloaded C rnd c0 m) = nt m /\ length (gv (reloaded C rnd c0 m)) = nv m.
@@ -54,12 +63,46 @@ Theorem c15_consistent_winding_preserved : forall m : mesh,
   locally_consistent C m -> has_correct_orientation m = true /\ update m = m.
 Proof. exact (consistent_preserved C). Qed.
 
-(* partial form of flood_fill_consistent: the repair only ever swaps the first two vertices of triangles
-   (same triangles, same order, same vertex sets); that every adjacent pair is consistent afterwards for a
-   connected orientable mesh is NOT proved (measured by the correspondence runs only) *)
+(* flood_fill_consistent.  [sg] is a consistent orientation of the triangles [ts0] (each triangle kept or flipped,
+   no two triangles run along a common edge in the same direction; by a global flip it can be taken to agree with
+   triangle 0, where the code's fill starts).  Proved for the faithful model of the fill (stack order, visited map,
+   adjacency = counter of shared vertices reaching 2, decision by has_same_edge against the CURRENT orientation of the
+   popped triangle): every triangle the fill visits ends in the orientation [sg], every other triangle is untouched.
+   Hence all pairs of visited triangles are consistent afterwards.
+   PARTIAL in one respect: that the fill visits every triangle of an edge-connected mesh (completeness of the
+   depth-first search with fuel = number of triangles) is not proved; c15_flood_fill_all_visited gives the conclusion
+   under that hypothesis.  The repair also never does anything but swap the first two vertices of triangles. *)
+Theorem c15_flood_fill_consistent_partial : forall ts0 sg : list tri,
+  (forall i, i < length ts0 -> nondeg (tnth ts0 i)) ->
+  orientation_of ts0 sg -> consistent_all sg -> 0 < length ts0 -> tnth sg 0 = tnth ts0 0 ->
+  exists vis, In 0 vis /\ inv ts0 sg vis (fill (length ts0) [0] [0] ts0).
+Proof. exact fill_consistent. Qed.
+
+Theorem c15_flood_fill_all_visited : forall ts0 sg vis ts, inv ts0 sg vis ts -> orientation_of ts0 sg ->
+  (forall i, i < length ts0 -> In i vis) -> ts = sg.
+Proof. exact fill_all_visited. Qed.
+
 Theorem c15_flood_fill_only_flips_partial : forall (ix : nat -> N) (ts : list tri),
   Forall2 same_or_flipped ts (correct_local ix ts).
 Proof. exact correct_local_sof. Qed.
+
+(* with "connected" read as connected through vertices the statement is false for the code: the fill walks across
+   edges only.  Bow-tie: triangle (0,1,2) touches the pair (2,3,4),(3,4,5) at vertex 2; the pair is inconsistent, a
+   consistent orientation exists (flip the last triangle), every edge belongs to at most two triangles, and
+   correct_local_orientation leaves the mesh as it is.  Replayed on the implementation by checks/c15.py. *)
+Theorem c15_flood_fill_consistent_refuted :
+  (forall i, i < length bowtie -> nondeg (tnth bowtie i)) /\
+  orientation_of bowtie bowtie_sg /\ consistent_all bowtie_sg /\
+  NoDup (flat_map dedges bowtie_sg) /\
+  correct_local N.of_nat bowtie = bowtie /\ hco_tr N.of_nat (correct_local N.of_nat bowtie) = false.
+Proof. exact bowtie_refutes. Qed.
+
+(* ---- the efficient definitions the extracted model runs are the proved ones *)
+Theorem c15_fast_orientation_check_equiv : forall (ix : nat -> N) (ts : list tri), hco_fast ix ts = hco_tr ix ts.
+Proof. exact hco_fast_eq. Qed.
+
+Theorem c15_position_table_equiv : forall (l : list nat) (g : nat), vpos_t (postab l) g = vpos l g.
+Proof. exact vpos_t_eq. Qed.
 
 (* ---- de-duplication by coordinates *)
 Theorem c15_add_vertices_distinct : forall vs : list (V3 C),
@@ -106,11 +149,17 @@ End C15.
 Print Assumptions c15_mesh_roundtrip_tri.
 Print Assumptions c15_mesh_roundtrip_off.
 Print Assumptions c15_mesh_roundtrip_bnd.
+Print Assumptions c15_mesh_roundtrip_mesh.
 Print Assumptions c15_reloaded_same_counts.
 Print Assumptions c15_reloaded_same_triangles.
 Print Assumptions c15_reloaded_rounded_coordinates.
 Print Assumptions c15_consistent_winding_preserved.
 Print Assumptions c15_flood_fill_only_flips_partial.
+Print Assumptions c15_flood_fill_consistent_partial.
+Print Assumptions c15_flood_fill_all_visited.
+Print Assumptions c15_flood_fill_consistent_refuted.
+Print Assumptions c15_fast_orientation_check_equiv.
+Print Assumptions c15_position_table_equiv.
 Print Assumptions c15_add_vertices_distinct.
 Print Assumptions c15_geometry_never_holds_equal_vertices.
 Print Assumptions c15_merge_keeps_triangles.
